@@ -94,9 +94,6 @@ func (c *FnCtx) lookup(fr *frame, st *State, guard string, x *ssa.Lookup) {
 		i := c.idxTerm(c.val(fr, x.Index))
 		c.oblige("bounds", "bounds@"+x.Name(), guard, fmt.Sprintf("(and (<= 0 %s) (< %s (strlen %s)))", i, i, s.S), "string index")
 		r := fmt.Sprintf("(strat %s %s)", s.S, i)
-		if c.mode == ModeBV {
-			r = fmt.Sprintf("((_ int2bv 8) %s)", r)
-		}
 		c.setVal(fr, x, Term{S: r, Sort: c.sortOf(x.Type()), T: x.Type()})
 	default:
 		c.fail("Lookup on %s", x.X.Type())
